@@ -148,6 +148,8 @@ func gaussJordan_DenseFloat64(a, x *DenseFloat64Matrix, b DenseFloat64Vector, su
     // normalize ith element in b
     b.AT(p[i]).DIV(b.AT(p[i]), c)
   }
+  // row i of the result is stored in row p[i]
+  p = interchangeSequence(p)
   if err := a.PermuteRows(p); err != nil {
     return err
   }
